@@ -4,6 +4,7 @@ import (
 	"encoding/hex"
 	"fmt"
 	"strings"
+	"sync/atomic"
 	"testing"
 	"time"
 
@@ -14,6 +15,7 @@ import (
 	"verif/harness/evid"
 	"verif/harness/fakecass"
 	"verif/harness/protogen"
+	"verif/harness/rawcli"
 	"verif/harness/wire"
 )
 
@@ -465,6 +467,31 @@ func c08Labels(c c08Case) (labels []string, nontrivial bool) {
 	return
 }
 
+// exhaust: the statement is in the proxy's cache, the host has forgotten it, and nearly every stream id of the host's only
+// connection is taken, so the proxy's re-PREPARE competes with other clients' requests for the last free id and sometimes
+// cannot be sent. The client must still never be handed UNPREPARED (the request moves on to the next host, or fails with the
+// proxy's own error when there is none).
+var c08ExhaustUnsendable int64
+
+func c08ExhaustCheck(c c01Exhaust) *evid.Fail {
+	return exhaustRun(c, func(k int, r *rawcli.Recv, trace string) *evid.Fail {
+		if r.F.Op != byte(primitive.OpCodeError) {
+			return nil
+		}
+		body, err := r.F.Decode("")
+		if err != nil {
+			return evid.Failf("undecodable-reply:exhaust", "EXECUTE %d: %v", k, err)
+		}
+		if _, ok := body.Message.(*message.ServerError); ok {
+			atomic.AddInt64(&c08ExhaustUnsendable, 1) // the re-PREPARE could not be sent and no other host had a free stream id either
+		}
+		if _, ok := body.Message.(*message.Unprepared); ok {
+			return evid.Failf("unprepared-seen:exhaust", "EXECUTE %d of a statement that is in the proxy's prepared cache was answered UNPREPARED while %d of 2048 stream ids per host (%d host(s)) were held and %d other clients kept sending; backend saw [%s]", k, c.Held, max(c.Hosts, 1), c.Hammer, trace)
+		}
+		return nil
+	})
+}
+
 func TestC08(t *testing.T) {
 	rec := evid.New("C08", "fault_enumeration",
 		"histories of PREPARE / EXECUTE / BATCH (prepared and string children) by 1..3 clients of different versions and compressions over 2..4 hosts x 1..2 connections, with hosts forgetting statements (one id or all), restarting, joining after start-up, bursts of concurrent EXECUTEs of one statement, and scripted outcomes (error kinds, connection loss) for the proxy's re-preparations; "+
@@ -495,4 +522,12 @@ func TestC08(t *testing.T) {
 		rec.Case("shared:"+js(c), "shared-texts")
 		return c
 	}, c08Check)
+	runProp(t, rec, "exhaust", perShard(evid.Pick(40, 800)), func(rt *rapid.T) c01Exhaust {
+		c := c01Exhaust{Held: rapid.SampledFrom([]int{2040, 2044, 2046, 2047}).Draw(rt, "held"), Executes: rapid.IntRange(10, 40).Draw(rt, "executes"),
+			Hammer: rapid.IntRange(1, 3).Draw(rt, "hammer"), Hosts: rapid.IntRange(1, 2).Draw(rt, "hosts")}
+		rec.Case("exhaust:"+js(c), "exhaust", fmt.Sprintf("exhaust:hosts=%d", c.Hosts))
+		rec.Sample(c)
+		return c
+	}, c08ExhaustCheck)
+	rec.ExtraAdd("exhaust_executes_answered_by_proxy_error", atomic.LoadInt64(&c08ExhaustUnsendable))
 }
